@@ -17,7 +17,7 @@ use crate::{
     gen::{cfg_strategy, chacha, healthy_rng_strategy, lattice, triple_strategy, Cfg, CtxSpec, SeedSpec, SlotSpec, Triple, TripleSpec},
     mutate::PubStatement,
     refimpl::{ref_prove, ref_recover, verify_residual, Cheat, Grp, Proof, RefWitness, Stmt},
-    runner::{guarded, sub, CaseLog, PropertyDef, RunCtx, Tier},
+    runner::{guarded, setup, sub, CaseLog, PropertyDef, RunCtx, Tier},
     tapx::{layout, tapped},
 };
 
@@ -174,13 +174,13 @@ pub fn load_vectors(ctx: &RunCtx) -> Vec<(usize, Vector)> {
 pub fn vector_oracle(_ctx: &RunCtx, iv: &(usize, Vector), log: &mut CaseLog) -> Result<(), String> {
     let (idx, v) = iv;
     let pc = ristretto::create_pedersen_gens_with_extension_degree(ext_of(v.ext));
-    let params = RangeParameters::init(v.bits, v.cap, pc).map_err(|e| format!("{:?}", e))?;
+    let params = RangeParameters::init(v.bits, v.cap, pc).map_err(crate::runner::skip_err)?;
     let blind: Vec<Vec<Scalar>> = v.blindings.iter().map(|r| r.iter().map(|s| scalar_of(s)).collect()).collect();
     let commitments: Vec<RistrettoPoint> = v
         .values
         .iter()
         .zip(blind.iter())
-        .map(|(val, r)| params.pc_gens().commit(&Scalar::from(*val), r).map_err(|e| format!("{:?}", e)))
+        .map(|(val, r)| params.pc_gens().commit(&Scalar::from(*val), r).map_err(crate::runner::skip_err))
         .collect::<Result<_, _>>()?;
     for (c, rec) in commitments.iter().zip(v.commitments.iter()) {
         if hex(&c.enc()) != *rec {
@@ -188,7 +188,7 @@ pub fn vector_oracle(_ctx: &RunCtx, iv: &(usize, Vector), log: &mut CaseLog) -> 
         }
     }
     let seed = v.seed.as_ref().map(|s| scalar_of(s));
-    let st = RangeStatement::init(params, commitments.clone(), v.promises.clone(), seed).map_err(|e| format!("{:?}", e))?;
+    let st = RangeStatement::init(params, commitments.clone(), v.promises.clone(), seed).map_err(crate::runner::skip_err)?;
     let bytes = unhex(&v.proof);
     let proof = guarded(|| RangeProof::<RistrettoPoint>::from_bytes(&bytes))?;
     // zero-round vectors cannot be decoded (known finding C15): they are re-proved instead
@@ -200,17 +200,20 @@ pub fn vector_oracle(_ctx: &RunCtx, iv: &(usize, Vector), log: &mut CaseLog) -> 
             .map(|(val, r)| CommitmentOpening::new(*val, r.clone()))
             .collect(),
     )
-    .map_err(|e| format!("{:?}", e))?;
+    .map_err(crate::runner::skip_err)?;
     // the prover reproduces the recorded bytes under the recorded RNG stream
-    let again = guarded(|| RangeProof::prove_with_rng(&mut v.ctx.transcript(), &st, &w, &mut RngSpec::ChaCha(v.rng_seed).make()))?
-        .map_err(|e| format!("vector {}: prover refused: {:?}", idx, e))?;
+    // (a prover that refuses this valid witness is C01's subject: then only the recorded proof itself is judged below)
+    let again = guarded(|| RangeProof::prove_with_rng(&mut v.ctx.transcript(), &st, &w, &mut RngSpec::ChaCha(v.rng_seed).make())).ok().and_then(|r| r.ok());
+    if again.is_none() {
+        log.label("vector:prover-refused(not judged here)");
+    }
     // ... as far as the PROTOCOL fixes them: with a recovery seed A and every L_j, R_j are functions of statement, witness,
     // transcript and seed (their nonces are the seed-derived ones of 0.4.0); A1, B, r1, s1 also depend on the two scalars the
     // prover draws from its hedged RNG, and how it draws them is not part of the wire protocol (C13 / C14 judge that)
-    if seed.is_some() {
+    if let (Some(again), true) = (again.as_ref(), seed.is_some()) {
         let (a, b) = (
-            Proof::parse_layout(&again.to_bytes()).map_err(|e| format!("{:?}", e))?,
-            Proof::parse_layout(&bytes).map_err(|e| format!("{:?}", e))?,
+            Proof::parse_layout(&again.to_bytes()).map_err(crate::runner::skip_err)?,
+            Proof::parse_layout(&bytes).map_err(crate::runner::skip_err)?,
         );
         if a.ext != b.ext || a.a != b.a || a.l != b.l || a.r != b.r {
             return Err(format!(
@@ -219,15 +222,20 @@ pub fn vector_oracle(_ctx: &RunCtx, iv: &(usize, Vector), log: &mut CaseLog) -> 
             ));
         }
     }
-    if again.to_bytes().len() != bytes.len() {
-        return Err(format!("vector {}: the prover's proof has {} bytes, the recorded one {}", idx, again.to_bytes().len(), bytes.len()));
+    if let Some(again) = again.as_ref() {
+        if again.to_bytes().len() != bytes.len() {
+            return Err(format!("vector {}: the prover's proof has {} bytes, the recorded one {}", idx, again.to_bytes().len(), bytes.len()));
+        }
     }
     let proof = match proof {
         Ok(p) => p,
         Err(e) => {
             if rounds == 0 {
                 log.excluded += 1;
-                again
+                match again {
+                    Some(p) => p,
+                    None => return Err(format!("{} zero-round vector {} cannot be decoded (known finding) and the prover refuses to re-prove it (C01's subject)", crate::runner::SKIP, idx)),
+                }
             } else {
                 return Err(format!("vector {}: recorded proof no longer decodes: {:?}", idx, e));
             }
@@ -279,13 +287,13 @@ pub fn vector_oracle(_ctx: &RunCtx, iv: &(usize, Vector), log: &mut CaseLog) -> 
         commitments,
         promises: v.promises.clone(),
     };
-    let pf = Proof::parse_layout(&bytes).map_err(|e| format!("{:?}", e))?;
+    let pf = Proof::parse_layout(&bytes).map_err(crate::runner::skip_err)?;
     match verify_residual(&mut v.ctx.transcript(), &rst, &pf) {
         Ok(r) if r == <RistrettoPoint as Grp>::zero() => {},
         other => return Err(format!("vector {}: the reference verifier does not accept the recorded proof ({:?})", idx, other.err())),
     }
     if let Some(sd) = seed {
-        let rr = ref_recover(&mut v.ctx.transcript(), &rst, &pf, &sd).map_err(|e| format!("{:?}", e))?;
+        let rr = ref_recover(&mut v.ctx.transcript(), &rst, &pf, &sd).map_err(crate::runner::skip_err)?;
         if rr != blind[0] {
             return Err(format!("vector {}: the reference recovery does not give the recorded mask", idx));
         }
@@ -307,15 +315,15 @@ pub fn cross_oracle(_ctx: &RunCtx, spec: &TripleSpec, log: &mut CaseLog) -> Resu
     let cfg = t.cfg;
     let rst = t.ref_stmt();
     // library prover -> reference verifier and reference recovery
-    let proof = guarded(|| t.prove())?.map_err(|e| format!("prover refused a valid witness: {:?}", e))?;
+    let proof = setup(guarded(|| t.prove()), "the prover refused or panicked on a valid witness (C01's subject)")?;
     let bytes = proof.to_bytes();
-    let pf = Proof::parse_layout(&bytes).map_err(|e| format!("{:?}", e))?;
+    let pf = Proof::parse_layout(&bytes).map_err(crate::runner::skip_err)?;
     match verify_residual(&mut t.transcript(), &rst, &pf) {
         Ok(r) if r == <RistrettoPoint as Grp>::zero() => {},
         other => return Err(format!("the independent verifier does not accept the library's proof ({:?})", other.err())),
     }
     if let Some(sd) = t.seed {
-        let rr = ref_recover(&mut t.transcript(), &rst, &pf, &sd).map_err(|e| format!("{:?}", e))?;
+        let rr = ref_recover(&mut t.transcript(), &rst, &pf, &sd).map_err(crate::runner::skip_err)?;
         if rr != t.blindings[0] {
             return Err("the independent recovery does not return the blinding vector from a library proof".into());
         }
